@@ -317,7 +317,7 @@ def check_plan(ctx, plan):
     R = res.client(0)
     for o in R:
         if o.exc():
-            rep.viol("exception", "C08:exception:" + (ops[o.idx][3] if ops[o.idx][0] == "call" else ops[o.idx][0]), "%s: %r raised %s" % (what, [x[:60] for x in ops[o.idx][:4]], o.exc()))
+            rep.viol("exception", "C08:exception:" + (ops[o.idx][3] if ops[o.idx][0] == "call" else ops[o.idx][0]) + ":" + re.sub(r"[^A-Za-z_: ]+", "", o.exc()[4:])[:48].strip(), "%s: %r raised %s" % (what, [x[:60] for x in ops[o.idx][:4]], o.exc()))
     if R[1].f[0] != "0":
         rep.viol("harness", "C08:first_load_failed", "initial load returned %s" % R[1].f[0])
         return rep
